@@ -917,7 +917,19 @@ func (x *Exec) guardAccess(st *State, structT types.Type, field string, ptr *Ter
 			if !g.matches(sn, field) {
 				continue
 			}
-			gv := x.ghostGlobal(st, g.Ghost, cf.Ghosts[g.Ghost])
+			if strings.HasPrefix(g.Pattern, "global.") {
+				continue
+			}
+			var goal *Term
+			var gprops []string
+			if g.Mutex != "" {
+				// guarded by the mutex field of the same object; the function that allocated the
+				// object may initialise it before publishing it
+				goal = x.b.Or(x.b.Select(x.mutexArr(st), x.b.App("fieldaddr."+sn+"."+g.Mutex, RefSort, ptr)), x.b.Le(x.b.Var("alloc0", IntSort), ptr, true))
+				gprops = []string{"C16"}
+			} else {
+				goal = x.ghostGlobal(st, g.Ghost, cf.Ghosts[g.Ghost]).scalar()
+			}
 			x.guardCount++
 			txt := ""
 			if at != nil {
@@ -931,7 +943,7 @@ func (x *Exec) guardAccess(st *State, structT types.Type, field string, ptr *Ter
 			if at != nil {
 				pos = at.Pos()
 			}
-			x.oblige(st, "guard", fmt.Sprintf("guard.%s(%s.%s @ %s)", kind, sn, field, txt), gv.scalar(), pos, nil)
+			x.oblige(st, "guard", fmt.Sprintf("guard.%s(%s.%s @ %s)", kind, sn, field, txt), goal, pos, gprops)
 			break
 		}
 	}
